@@ -1016,6 +1016,11 @@ func (d *Data) Initialize() {
 		} else {
 			dvid.Criticalf("Can't load JSON schema for neuronjson %q: %v\n", d.DataName(), err)
 		}
+		// getJSONSchema caches the schema bytes only for an open head; a committed leaf must have
+		// them too, or its next child answers GET json_schema with 404 although the store has it.
+		if value, err := d.loadMetadata(ctx, JSONSchema); err == nil && len(value) != 0 {
+			d.metadata[JSONSchema] = value
+		}
 		if value, err := d.loadMetadata(ctx, NeuSchema); err == nil {
 			dvid.Infof("Metadata load of neutu/neu3 JSON schema for %s: %d bytes\n", leafUUID[:6], len(value))
 			if value != nil {
